@@ -202,15 +202,61 @@ FLAVOUR_NAMES = {"s": "td_string", "v": "td", "m": "td_format_string", "md": "td
                  "rh": "td_string-through-foreign-key-with-args"}
 
 
-def e2e_stage(res, tier, seed):
-    rng = rng_for(seed, "C18", "E")
+PROVIDER_RS = r'''
+// the application's own ICU data provider: leptos_i18n is built WITHOUT `icu_compiled_data` in this crate and builds every
+// formatter through this trait (the constructors below are the ones its own compiled-data provider uses)
+pub struct AppProvider;
+impl leptos_i18n::custom_provider::IcuDataProvider for AppProvider {
+    fn try_new_num_formatter(&self, locale: &leptos_i18n::reexports::icu::provider::DataLocale, options: FixedDecimalFormatterOptions)
+        -> Result<FixedDecimalFormatter, leptos_i18n::reexports::icu::decimal::DecimalError> { FixedDecimalFormatter::try_new(locale, options) }
+    fn try_new_date_formatter(&self, locale: &leptos_i18n::reexports::icu::provider::DataLocale, l: length::Date)
+        -> Result<DateFormatter, leptos_i18n::reexports::icu::datetime::DateTimeError> { DateFormatter::try_new_with_length(locale, l) }
+    fn try_new_time_formatter(&self, locale: &leptos_i18n::reexports::icu::provider::DataLocale, l: length::Time)
+        -> Result<TimeFormatter, leptos_i18n::reexports::icu::datetime::DateTimeError> { TimeFormatter::try_new_with_length(locale, l) }
+    fn try_new_datetime_formatter(&self, locale: &leptos_i18n::reexports::icu::provider::DataLocale, o: leptos_i18n::reexports::icu::datetime::options::DateTimeFormatterOptions)
+        -> Result<DateTimeFormatter, leptos_i18n::reexports::icu::datetime::DateTimeError> { DateTimeFormatter::try_new(locale, o) }
+    fn try_new_and_list_formatter(&self, locale: &leptos_i18n::reexports::icu::provider::DataLocale, s: ListLength)
+        -> Result<ListFormatter, leptos_i18n::reexports::icu::list::ListError> { ListFormatter::try_new_and_with_length(locale, s) }
+    fn try_new_or_list_formatter(&self, locale: &leptos_i18n::reexports::icu::provider::DataLocale, s: ListLength)
+        -> Result<ListFormatter, leptos_i18n::reexports::icu::list::ListError> { ListFormatter::try_new_or_with_length(locale, s) }
+    fn try_new_unit_list_formatter(&self, locale: &leptos_i18n::reexports::icu::provider::DataLocale, s: ListLength)
+        -> Result<ListFormatter, leptos_i18n::reexports::icu::list::ListError> { ListFormatter::try_new_unit_with_length(locale, s) }
+    fn try_new_plural_rules(&self, locale: &leptos_i18n::reexports::icu::provider::DataLocale, t: leptos_i18n::reexports::icu::plurals::PluralRuleType)
+        -> Result<leptos_i18n::reexports::icu::plurals::PluralRules, leptos_i18n::reexports::icu::plurals::PluralsError> { leptos_i18n::reexports::icu::plurals::PluralRules::try_new(locale, t) }
+    fn try_new_currency_formatter(&self, locale: &leptos_i18n::reexports::icu::provider::DataLocale, o: CurrencyFormatterOptions)
+        -> Result<CurrencyFormatter, leptos_i18n::reexports::icu::provider::DataError> { CurrencyFormatter::try_new(locale, o) }
+}
+'''
+PROVIDER_DEPS = '''icu_decimal = { version = "1.5", features = ["compiled_data"] }
+icu_datetime = { version = "1.5", features = ["compiled_data"] }
+icu_list = { version = "1.5", features = ["compiled_data"] }
+icu_plurals = { version = "1.5", features = ["compiled_data"] }
+icu_experimental = { version = "0.1", features = ["compiled_data"] }
+'''
+
+
+def e2e_stage(res, tier, seed, custom=False):
+    """custom=True: the same observations in a crate where leptos_i18n has no compiled data and formats through the
+    application's own data provider (a reduced set of configurations)."""
+    rng = rng_for(seed, "C18", "E", custom)
     cfgs = configs()
-    if tier == "quick":
+    if custom:
+        # every option value of every formatter once
+        seen, keep = set(), []
+        for c_ in cfgs:
+            vals = frozenset([c_[0]] + ["%s=%s" % (i_, v_) for i_, v_ in enumerate(c_[3][1:])])
+            if not vals <= seen and all(v.isascii() and v.isidentifier() for _, v in c_[1]):
+                seen |= vals
+                keep.append(c_)
+        cfgs = keep
+    elif tier == "quick":
         # every option value at least once, a sample of the products
         keep = [c for c in cfgs if c[0] in ("number", "date", "time", "currency")] + \
             rng.sample([c for c in cfgs if c[0] == "datetime"], 6) + rng.sample([c for c in cfgs if c[0] == "list"], 10)
         cfgs = keep
     locs = LOCALES if tier == "thorough" else ["en", "fr", "ar", "ja", "es"]
+    if custom:
+        locs = ["en", "fr", "ja"] if tier == "thorough" else ["fr", "en"]
     tree = []
     for i, (name, args, dbg, canon) in enumerate(cfgs):
         tree.append(["f%d" % i, {"k": "tmpl", "segs": [fmt_seg(name, list(args), rng.random() < 0.5)]}])
@@ -218,10 +264,20 @@ def e2e_stage(res, tier, seed):
         tree.append(["g%d" % i, {"k": "tmpl", "segs": [{"s": "text", "v": "ref "}, {"s": "fk", "ns": None, "path": ["f%d" % i], "args": None}]}])
         tree.append(["w%d" % i, {"k": "tmpl", "segs": [{"s": "var", "name": "who", "fmt": None}, {"s": "text", "v": " owes "}, fmt_seg(name, list(args), True)]}])
         tree.append(["h%d" % i, {"k": "tmpl", "segs": [{"s": "fk", "ns": None, "path": ["w%d" % i], "args": [["who", {"a": "str", "segs": [{"s": "text", "v": "ref"}]}]]}]}])
+    if custom:
+        # plural rules are built through the provider too
+        for rule in ("cardinal", "ordinal"):
+            tree.append(["pl_" + rule[:3], {"k": "plural", "rule": rule, "forms": {f: [{"s": "text", "v": f}] for f in gen.FORMS}}])
     proj = {"cfg": {"default": locs[0], "locales": list(locs), "namespaces": None, "inherits": {}, "locales_dir": None},
             "data": {(None, l): tree for l in locs}}
-    c = e2e.ProbeCrate("c18_0", proj)
+    c = e2e.ProbeCrate("c18_custom" if custom else "c18_0", proj,
+                       features=["cookie", "interpolate_display", "plurals", "format_datetime", "format_nums", "format_list", "format_currency", "ssr"] if custom else None)
     c.extra_items = EXPECT_RS
+    if custom:
+        c.extra_items += PROVIDER_RS
+        c.extra_deps = PROVIDER_DEPS
+        c.main_prelude = "    leptos_i18n::custom_provider::set_icu_data_provider(AppProvider);\n"
+    tagp = "custom-provider/" if custom else ""
     for i, (name, args, dbg, canon) in enumerate(cfgs):
         for loc in locs:
             lv = "Locale::" + e2e.ident(loc)
@@ -272,13 +328,24 @@ def e2e_stage(res, tier, seed):
                         lines += macro_family(oid, vi, lv, arr, arr, name, fargs, lv_other)
             lines += ref_lines(oid, lv, i, name)
             c.add("\n".join(lines), {"name": name, "args": args, "canon": canon, "locale": loc})
-    root = e2e.write_workspace("c18", [c], seed=seed)
+    if custom:
+        for loc in locs:
+            for rule, rt in (("cardinal", "Cardinal"), ("ordinal", "Ordinal")):
+                oid = c.next_id
+                body = ('    let rules = leptos_i18n::reexports::icu::plurals::PluralRules::try_new(&(&il(%s)).into(), leptos_i18n::reexports::icu::plurals::PluralRuleType::%s).unwrap();\n'
+                        '    for n in (0u64..40).chain([100, 101, 111, 1000000]) {\n'
+                        '        let want = format!("{:?}", rules.category_for(n)).to_lowercase();\n'
+                        '        emit(%d, &format!("exp{}", n), &want); emit(%d, &format!("s{}", n), &td_string!(Locale::%s, pl_%s, count = n).to_string());\n'
+                        '        emit(%d, &format!("v{}", n), &html(td!(Locale::%s, pl_%s, count = move || n)));\n    }' % (
+                            e2e.rust_str(loc), rt, oid, oid, e2e.ident(loc), rule[:3], oid, e2e.ident(loc), rule[:3]))
+                c.add(body, {"name": "plural-" + rule, "args": [], "canon": ("plural", rule), "locale": loc})
+    root = e2e.write_workspace("c18-custom" if custom else "c18", [c], seed=seed)
     status, secs, _ = e2e.build_workspace(root, [c])
-    res.extra["e2e"] = {"build_s": round(secs, 1), "observations": len(c.obs)}
+    res.extra["e2e-custom-provider" if custom else "e2e"] = {"build_s": round(secs, 1), "observations": len(c.obs), "configurations": len(cfgs), "locales": locs}
     st = status[c.name]
     if not st["ok"]:
         res.ev()
-        res.violation("C18/e2e-documented-formatters-do-not-compile", "\n".join(st["messages"])[:3000], {"root": root})
+        res.violation("C18/%se2e-documented-formatters-do-not-compile" % tagp, "\n".join(st["messages"])[:3000], {"root": root})
         return
     obs, done, rc, err = e2e.run_crate(st["exe"])
     if not done:
@@ -295,7 +362,7 @@ def e2e_stage(res, tier, seed):
                               "%s %s locale %s: ICU4X says %s; the library panics: %s" % (exp["name"], exp["args"], exp["locale"], icu_err, got["*"].get("panic")),
                               {"formatter": exp["name"], "args": exp["args"], "locale": exp["locale"]})
                 continue
-            res.violation("C18/formatting-panicked/%s" % exp["name"], "%s %s locale %s: %s" % (exp["name"], exp["args"], exp["locale"], got["*"].get("panic")),
+            res.violation("C18/%sformatting-panicked/%s" % (tagp, exp["name"]), "%s %s locale %s: %s" % (exp["name"], exp["args"], exp["locale"], got["*"].get("panic")),
                           {"formatter": exp["name"], "args": exp["args"], "locale": exp["locale"]})
             continue
         vi = 0
@@ -308,11 +375,11 @@ def e2e_stage(res, tier, seed):
                     continue
                 res.ev()
                 text = e2e.normalise_html(o["v"]) if fl in ("v", "mv", "mw", "mx", "my", "rv") else o["v"]
-                res.count("e2e:%s:%s" % (exp["name"], FLAVOUR_NAMES[fl]))
+                res.count("e2e:%s%s:%s" % ("custom-provider:" if custom else "", exp["name"], FLAVOUR_NAMES[fl]))
                 if exp["args"]:
                     res.nontriv([exp["canon"], exp["locale"], vi])
                 if text != want:
-                    res.violation("C18/output-differs-from-icu/%s/%s" % (exp["name"], fl), "%s%s locale=%s value#%d: expected (ICU4X with %s) %r, got %r" % (
+                    res.violation("C18/%soutput-differs-from-icu/%s/%s" % (tagp, exp["name"], fl), "%s%s locale=%s value#%d: expected (ICU4X with %s) %r, got %r" % (
                         exp["name"], exp["args"], exp["locale"], vi, exp["canon"], want, text), {"formatter": exp["name"], "args": exp["args"], "locale": exp["locale"]})
                 elif exp["args"]:
                     res.sample({"formatter": exp["name"], "args": exp["args"], "locale": exp["locale"], "text": text}, limit=6)
@@ -414,6 +481,7 @@ def run(tier, seed, replay=None):
     res = Result("C18", tier, seed, RULE)
     parser_stage(res, tier, seed)
     e2e_stage(res, tier, seed)
+    e2e_stage(res, tier, seed, custom=True)
     stress_stage(res, tier, seed)
     if tier == "thorough" or os.environ.get("VERIF_SANITIZERS") == "1":
         sanitizer_stages(res, seed)
